@@ -1367,19 +1367,30 @@ static void gen_stmt(Node *node) {
     gen_expr(node->cond);
 
     for (Node *n = node->case_next; n; n = n->case_next) {
-      char *ax = (node->cond->ty->size == 8) ? "%rax" : "%eax";
-      char *di = (node->cond->ty->size == 8) ? "%rdi" : "%edi";
+      bool is64 = (node->cond->ty->size == 8);
+      char *ax = is64 ? "%rax" : "%eax";
+      char *di = is64 ? "%rdi" : "%edi";
+      char *dx = is64 ? "%rdx" : "%edx";
 
-      if (n->begin == n->end) {
-        println("  cmp $%ld, %s", n->begin, ax);
+      // A label is converted to the type of the controlling expression.
+      // A 64-bit label may not fit in an immediate operand of cmp/sub,
+      // so it is loaded into a register first.
+      long begin = is64 ? n->begin : (int)n->begin;
+      long end = is64 ? n->end : (int)n->end;
+
+      if (begin == end) {
+        println("  mov $%ld, %s", begin, di);
+        println("  cmp %s, %s", di, ax);
         println("  je %s", n->label);
         continue;
       }
 
       // [GNU] Case ranges
       println("  mov %s, %s", ax, di);
-      println("  sub $%ld, %s", n->begin, di);
-      println("  cmp $%ld, %s", n->end - n->begin, di);
+      println("  mov $%ld, %s", begin, dx);
+      println("  sub %s, %s", dx, di);
+      println("  mov $%ld, %s", end - begin, dx);
+      println("  cmp %s, %s", dx, di);
       println("  jbe %s", n->label);
     }
 
